@@ -8,34 +8,55 @@ def gen_su(r, tier):
     return ss.gen_startup(r, 120 if tier == "quick" else 3000)
 
 
+def gen_su_data(r, tier):
+    return ss.gen_startup_data(r, 150 if tier == "quick" else 3000)
+
+
 class C15(Prop):
     id = "C15"
-    lean_modules = ["Fan2go.Props.C15"]
+    lean_modules = ["Fan2go.Props.C15", "Fan2go.Props.C15b"]
     fact_modules = ["Fan2go.Props.Facts"]
     rule = ("startup: the REAL DefaultFanController.Run on fans over virtual devices with a real bbolt file in virtual time, stopped "
             "right after the first regulation cycle; sequences of start / reset / init (<= 6) over {hwmon, file} x configured "
             "pwmMap on/off x configured min+max on/off x RPM input on/off; every PWM write before the first regulation cycle is "
-            "classified (255->0 staircase = sweep, ascending staircase = RPM-curve measurement). non-trivial = distinct (fan "
-            "declaration, op sequence shape)")
+            "classified (255->0 staircase = sweep, ascending staircase = RPM-curve measurement). startup-data: the same runs "
+            "followed by su.data (stored PWM map, stored RPM curve, limits a fresh fan derives from it, device registers; exact "
+            "comparison with the data-carrying model Model/Analysis.lean) over quantisers 0/2/3/4/8/16/32, spin thresholds, "
+            "configured map styles, fans without RPM input / PWM read support, poked registers, re-declarations; su.settle = "
+            "the real waitForFanToSettle on scripted RPM inputs. non-trivial = distinct (fan declaration, op sequence shape)")
     assumptions = ["the bodies of `fan2go fan reset` / `fan init` are re-stated in the harness; their call sequences are regenerated facts (fact_cli_bodies)",
                    "database operations succeed (C14's subject)"]
-    streams = [Stream("startup", gen_su, parallel=8)]
+    streams = [Stream("startup", gen_su, parallel=8), Stream("startup-data", gen_su_data, parallel=8)]
 
     def oracle(self, name, ops, go):
         out = []
         for cops, cgo in cases(ops, go):
             decl = {}
             fresh = {}   # fan -> True when its stored data were discarded (or never created)
+            kept = {}    # fan -> (map, rpm) tokens of su.data seen since the fan stopped being fresh
             for i, (op, g) in enumerate(zip(cops, cgo)):
                 a = kv(op)
                 f = a.get("fan")
                 if op.startswith("su.fan"):
                     decl[f] = a
                     fresh[f] = True
-                elif op.startswith("su.reset"):
+                    kept.pop(f, None)
+                elif op.startswith("su.reset") or op.startswith("su.delmap"):
                     fresh[f] = True
+                    kept.pop(f, None)
+                elif op.startswith("su.data"):
+                    # "stored characterisation is reused": once a start has succeeded, the two stored entries stay what
+                    # they are until the user discards them
+                    r = kv(g)
+                    cur = (r.get("map"), r.get("rpm"))
+                    if not fresh.get(f, True):
+                        if f in kept and kept[f] != cur:
+                            out.append(viol("the stored PWM map / RPM curve of an analysed fan changed without the user discarding it", cops, cgo, upto=i))
+                            break
+                        kept[f] = cur
                 elif op.startswith("su.init"):
                     r = kv(g)
+                    kept.pop(f, None)
                     fresh[f] = not (r.get("res") == "ok" and r.get("rpm") == "1" and r.get("map") == "1")
                 elif op.startswith("su.start"):
                     r = kv(g)
@@ -55,6 +76,72 @@ class C15(Prop):
                         # start may analyse it again -- whether or not the implementation stored what it measured
                         fresh[f] = False
         return out
+
+    def extra(self, ctx):
+        """process level: the real daemon binary and the real CLI commands `fan reset` / `fan init` on a fake hwmon tree:
+        start, restart (no analysis), reset, start (analysis again), restart, init, start (no analysis)"""
+        import os
+        import shutil
+        import signal
+        import subprocess
+        import tempfile
+        import time
+        from .. import gobuild, daemon
+        from ..check import Violation
+        try:
+            binary = gobuild.build("fan2go")
+        except gobuild.BuildError as e:
+            return [], {"broken": [f"fan2go build failed: {e}: {e.output[-600:]}"]}
+        viols, runs, classes = [], 0, set()
+        for rep in range(1 if ctx["tier"] == "quick" else 6):
+            base = tempfile.mkdtemp(prefix="c15d-", dir=os.path.join(gobuild.BUILD, "scratch"))
+            try:
+                chip, j = daemon.make_tree(base, nfans=1, orig_mode=2, orig_pwm=100)
+                cfg = daemon.make_config(base, chip, nfans=1, curve=ctx["rng"].pick(["linear", "pid"]))
+
+                def start():
+                    d = daemon.Daemon(binary, base, cfg, j)
+                    d.wait_regulating(chip, 1, timeout=25)
+                    time.sleep(0.03)
+                    d.signal(signal.SIGTERM)
+                    rc = d.wait(25)
+                    log = d.logtext()
+                    d.close()
+                    return rc, any(m in log for m in ("initialization sequence", "Computing pwm map", "Measuring RPM curve"))
+
+                def cli(*args):
+                    env = dict(os.environ)
+                    env.pop("DISPLAY", None)
+                    env.update({"VERIF_GOSENSORS_JSON": j, "VERIF_VIRTUAL_CLOCK": "1"})
+                    p = subprocess.run([binary, *args, "-c", cfg, "--no-style"], env=env, stdout=subprocess.PIPE,
+                                       stderr=subprocess.STDOUT, text=True, timeout=180, cwd=base)
+                    return p.returncode
+
+                script = [("start", True), ("start", False), ("reset", None), ("start", True), ("start", False),
+                          ("init", None), ("start", False)]
+                trace = []
+                for step, want in script:
+                    if step == "start":
+                        rc, analysed = start()
+                        trace.append(f"start rc={rc} analysed={int(analysed)}")
+                        runs += 1
+                        classes.add((step, want, analysed))
+                        if rc != 0 or analysed != want:
+                            viols.append(Violation(
+                                ("start-up repeated the fan analysis although its data are stored" if analysed and not want else
+                                 "start-up did not analyse a fan without stored data" if want and not analysed else f"daemon exit {rc}")
+                                + " (process level: " + "; ".join(trace) + ")", stream="daemon", case_ops=trace[:], go=[]))
+                            break
+                    else:
+                        rc = cli("fan", "--id", "f1", step)
+                        trace.append(f"fan {step} rc={rc}")
+                        if rc != 0:
+                            viols.append(Violation(f"`fan2go fan {step}` failed (exit {rc})", stream="daemon", case_ops=trace[:], go=[]))
+                            break
+            finally:
+                shutil.rmtree(base, ignore_errors=True)
+        return viols, {"evaluations": runs, "nontrivial": classes, "traces_validated": runs, "daemon_starts": runs,
+                       "samples": [{"stream": "daemon", "ops": ["start", "start", "fan reset", "start", "start", "fan init", "start"]}]}
 
     def classify(self, v):
         if (v.detail or {}).get("minmax_first_start"):
